@@ -672,6 +672,16 @@ func (f *fileStore) close() error {
 	return f.flushPages()
 }
 
+// abandon releases a store that could not be brought into use: it stops the
+// flush timer and closes the file without writing anything.
+func (f *fileStore) abandon() {
+	if f.autoFlushCache {
+		f.ticker.Stop()
+		f.tickerDone <- true
+	}
+	f.file.Close()
+}
+
 func (f *fileStore) getRoot() (*btreeNode, error) {
 	return f.fetch(f.rootOffset)
 }
